@@ -16,6 +16,14 @@ from dashlive.utils.buffered_reader import BufferedReader
 from .dash_element import DashElement
 
 class InitSegment(DashElement):
+    # ISO/IEC 14496-12: boxes that shall be present in the moov box of a
+    # fragmented file. Each entry lists the alternatives that are allowed.
+    MANDATORY_MOOV_BOXES: list[tuple[str, ...]] = [
+        ('mvhd',), ('mvex',), ('trex',), ('dinf',), ('stts',), ('stsc',),
+        ('stsz', 'stz2'), ('stco', 'co64'),
+        ('vmhd', 'smhd', 'hmhd', 'sthd', 'nmhd'),
+    ]
+
     atoms: list[mp4.Mp4Atom] | None
     dash_rep: DashRepresentation | None
     name: str
@@ -177,6 +185,14 @@ class InitSegment(DashElement):
                     'PSSH box should be present in an encrypted stream')
 
     def validate_moov(self, moov: mp4.Mp4Atom) -> None:
+        for names in self.MANDATORY_MOOV_BOXES:
+            found = False
+            for name in names:
+                if moov.find_child(name) is not None:
+                    found = True
+            self.elt.check_true(
+                found, None, None,
+                msg=f'{" or ".join(names)} box is missing from the MOOV box of the init segment')
         dash_rep = self.dash_rep
         dash_timescale = self.parent.dash_timescale()
         media_timescale: int | None = self.media_timescale()
